@@ -27,7 +27,7 @@ Definition rule_n (r : rule) : N :=
 
 Definition errc_n (e : errc) : N :=
   match e with
-  | EBinaryOp => 0 | EUnimplObj => 1 | EThrownUnimpl => 2 | EUser => 3 | EType => 4 | EString => 5
+  | EBinaryOp => 0 | EUnimplObj => 1 | EThrownUnimpl => 2 | EUser Thrown => 3 | EType => 4 | EString => 5 | EUser Runtime => 6
   end.
 
 Definition enc_outcome (x : outcome) : list N :=
@@ -56,8 +56,9 @@ Fixpoint mk_oracle (l : list (side * metakey * fres)) : oracle :=
     | (s', k', r) :: rest => if side_eqb s s' && metakey_eqb k k' then r else mk_oracle rest s k
     end.
 
+(* (events, outcome, frames left behind) *)
 Definition run_case (p : op) (l r : kind) (o : list (side * metakey * fres)) :=
-  enc_action (dispatch (mk_oracle o) p l r).
+  (enc_action (dispatch (mk_oracle o) p l r), N.of_nat (leftover_frames (mk_oracle o) p l r)).
 
 (* `.` access *)
 Definition enc_access (a : access_res) : list N :=
